@@ -56,6 +56,7 @@ class CheckedTty(world.VTty):
         self.pending_owner = []
         self.inq_owner = []      # [[task, bytes left]] parallel to inq
         self.misdelivered = []
+        self.late = False        # late-reply harness: see tcsetattr
 
     def _who(self):
         s = sched.ACTIVE
@@ -100,6 +101,10 @@ class CheckedTty(world.VTty):
         return data
 
     def tcsetattr(self, fd, when, attrs):
+        if self.late and when != _termios.TCSANOW and self.pending:
+            # replies the previous caller stopped waiting for (its query timed out) have arrived by the
+            # time the next query starts: they sit in the input queue when the attributes are changed
+            self._deliver(len(self.pending), 0.0)
         if when == _termios.TCSAFLUSH and self.inq:
             self._consume(len(self.inq), "discarded (TCSAFLUSH)")
         super().tcsetattr(fd, when, attrs)
@@ -110,10 +115,11 @@ class CheckedTty(world.VTty):
             self.session = None
 
 
-def make_tty(chooser=None):
+def make_tty(chooser=None, late=False):
     cfg = dict(world.IDENTITIES["kitty"])
     resp = world.Responder(fg=b"rgb:ffff/ffff/ffff", bg=b"rgb:0000/0000/0000", **cfg)
-    tty = CheckedTty(10, 5, 0, 0, responder=resp, chooser=chooser, allow_silence=False)
+    tty = CheckedTty(10, 5, 0, 0, responder=resp, chooser=chooser, allow_silence=late)
+    tty.late = late
     tty.log_calls = False
     return tty
 
@@ -209,6 +215,10 @@ def probes(mod):
     p = dict(raw=mod.lock_tty(probe_raw_body), rw=mod.lock_tty(probe_rw_body),
              query=mod.lock_tty(probe_query_body), nested=mod.lock_tty(probe_nested_body),
              name=probe_name_body, colors=probe_colors_body)
+    # the same function object handed to lock_tty a second time (two components synchronizing the same
+    # helper), and an already synchronized wrapper handed to it again: both results must be synchronized
+    p["raw2"] = mod.lock_tty(probe_raw_body)
+    p["raw_ww"] = mod.lock_tty(p["raw"])
     _PROBES[mod] = p
     return p
 
@@ -236,7 +246,7 @@ def run_prog(model, pid, prog, base, threads=()):
 def build(spec, chooser):
     """Scheduler + process model + tasks for one execution of harness *spec*."""
     global S
-    tty = make_tty(chooser if spec.get("replies") else None)
+    tty = make_tty(chooser if spec.get("replies") else None, late=bool(spec.get("late")))
     S = ExecState(tty)
     s = sched.Scheduler(chooser, trace_names=PROBE_NAMES, max_steps=50000)
     procs = spec.get("procs", {})
@@ -310,8 +320,10 @@ def judge(col, spec, ch, s, model, tty, st, case=None):
         viol("device-session", f"{a[1]} called tty.{a[2]} while {a[0]} had a query in progress "
              f"(attributes modified, not yet restored)",
              across="processes" if a[0].split(".")[0] != a[1].split(".")[0] else "threads")
-    if tty.misdelivered:
-        a = tty.misdelivered[0]
+    late = bool(spec.get("late"))
+    mis = [a for a in tty.misdelivered if not (late and a[2].startswith("discarded"))]
+    if mis:
+        a = mis[0]
         viol("reply-misdelivered", f"(part of) the terminal's reply to {a[0]} was {a[2]} by {a[1]}",
              across="processes" if a[0].split(".")[0] != a[1].split(".")[0] else "threads")
     if s.tty_hang:
@@ -322,6 +334,9 @@ def judge(col, spec, ch, s, model, tty, st, case=None):
             viol("not-started", f"tasks never started: {[t.name for t in ns]}")
         for r in st.results:
             tag, pid, kind, ok, data = r
+            if late and kind == "query" and data is not None and \
+                    (kitty_reply(tag) + DA1_REPLY).startswith(data):
+                ok = True       # the terminal may answer late: a (possibly empty) part of the own reply
             if not ok:
                 viol("own-reply", f"probe {tag} ({kind}, process {pid}) got {data!r}", kind=kind)
                 break
@@ -331,7 +346,7 @@ def judge(col, spec, ch, s, model, tty, st, case=None):
             viol("reentrancy", f"probes still marked inside at the end: {st.inside}")
         if tty.attrs != tty.base_attrs:
             viol("attrs-restored", "terminal attributes differ from the initial ones at the end")
-        if tty.inq or tty.pending:
+        if (tty.inq or tty.pending) and not late:
             viol("unread", f"unread / undelivered replies at the end: {bytes(tty.inq)!r} {tty.pending}")
         for pid in range(model.npids):
             m = model.mod(pid)
@@ -379,6 +394,12 @@ def harnesses(tier):
     add("threads-nested", [[P("nested")], [P("raw")], [P("rw")]], bound=(1, 3))
     add("threads-real-getters", [[P("name")], [P("colors")]], bound=(2, 3))
     add("threads-query-replies", [[P("query")], [P("raw")]], replies=True, bound=(2, 3))
+    # a reply (or its tail) arrives after its caller's query timed out and before the next caller's query:
+    # the next caller must not read it as its own (query_terminal discards unread input first)
+    add("threads-late-replies", [[P("query")], [P("query")]], replies=True, late=True, bound=(2, 2))
+    # synchronized functions obtained by decorating one function object twice / a wrapper again
+    add("threads-redecorated", [[P("raw")], [P("raw2")], [P("raw_ww")]], bound=(1, 2))
+    add("start-redecorated", [[["start", 1]], [P("raw2")]], {"1": dict(prog=[P("raw2")])}, bound=(1, 2))
     # first start (thread lock -> process lock migration) racing with probes
     add("start-race", [[P("raw")], [P("raw")], [["start", 1]]], {"1": one}, bound=(1, 2))
     add("start-then-probe", [[["start", 1], P("raw")], [P("raw")]], {"1": one})
